@@ -60,6 +60,9 @@ Consume ==
      IF e.op = "call"
      THEN IF pc = "idle" THEN CallRead /\ k' = k + 1 /\ UNCHANGED <<ti, bad>>
           ELSE bad' = <<"CallWhileBusy", <<pc>> >> /\ UNCHANGED <<fvars, ti, k>>
+     ELSE IF e.op = "read" /\ e.n = 0 /\ e.then = "raise" /\ Tr.hraise /\ obs.ev = "handler" /\ pc = "b1"
+     THEN \* the user's handler raised: its exception leaves read() (the handler had been called once)
+          HandlerRaises /\ k' = k + 1 /\ UNCHANGED <<ti, bad>>
      ELSE IF e.op = "read" /\ e.n = 0 /\ e.then = "none" /\ e.data = << >> /\ pc \in {"pay", "crc"}
      THEN \* a zero-size request (zero-length frame) is neither a read nor an end of data
           k' = k + 1 /\ UNCHANGED <<fvars, ti, bad>>
